@@ -104,16 +104,15 @@ Rederive(St, m, refs) ==
 
 Result(St, res) == [S |-> St, res |-> res]
 
-\* ReferenceManager.new_ref, model.py:1915-1927
-\*  model level: ModelImpl.new_ref (model.py:961-966), no check at all;
-\*  space: SpaceManager.new_ref (model.py:1487-1512): _find_name_in_subs
-\*  starts with the space itself, so a model-level reference of that name is
-\*  found first and accepted; otherwise a sub space defining the name -> ValueError
+\* ReferenceManager.new_ref (model.py, class ReferenceManager)
+\*  model level: ModelImpl.new_ref, no check at all;
+\*  space: SpaceManager.new_ref: only a cells or a space of that name in the
+\*  space or a sub space is a conflict (none in this vocabulary: the cells is
+\*  "c", never used as a reference name here); a sub space that defines the
+\*  name keeps its own reference, the others get a derived copy;
+\*  then the defined reference is registered under its value.
 RmNewRef(St, m, sp, n, v) ==
-    IF sp = "A" /\ St.base[m] /\ "B" \in St.sp[m] /\ n \notin GlobalNames(St, m)
-       /\ n \in OwnNames(St, m, "B")
-    THEN Result(St, "rejected")
-    ELSE Result([St EXCEPT
+    Result([St EXCEPT
             !.refs[m] = Rederive(St, m, @ \cup {[sp |-> sp, n |-> n, v |-> v, d |-> FALSE]}),
             !.v2r[m]  = @ \cup {[v |-> v, sp |-> sp, n |-> n]}], "ok")
 
@@ -206,6 +205,7 @@ DelRefStep(St, op) ==
 \* ReferenceManager.update_value, model.py:1988-2015 (Model.update_pandas /
 \* update_module, model.py:147-231)
 \*  1991-1995 value not registered -> ValueError;
+\*            old has a spec and new (another value) has its own spec -> ValueError;
 \*  2000-2002 the spec (if any) takes the new value in place
 \*            (IOManager.update_spec_value, baseio.py:245-252);
 \*  2004-2012 every registered reference is re-bound at impl level
@@ -216,6 +216,8 @@ UpdateStep(St, op) ==
     LET m == op.m
         reg == {t \in St.v2r[m] : t.v = op.old} IN
     IF reg = {} THEN Result(St, "rejected")
+    ELSE IF HasSpec(St, m, op.old) /\ op.new # op.old /\ HasSpec(St, m, op.new)
+    THEN Result(St, "rejected")   \* "new value already has its own IOSpec"
     ELSE
     LET S1 == IF HasSpec(St, m, op.old)
               THEN LET sp0 == GetSpec(St, m, op.old) IN
